@@ -10,7 +10,7 @@ import kanirun
 VERIF = os.path.dirname(os.path.dirname(os.path.abspath(__file__)))
 
 
-NATIVE_BUDGET = [2]
+NATIVE_BUDGET = [1]
 
 
 def extract_playback(out):
@@ -23,7 +23,7 @@ def extract_playback(out):
     return src, [{"value": v.strip(), "bytes": b.strip()} for v, b in vals]
 
 
-def make_replay(pid, h, r, failed_checks, target_dir, scratch):
+def make_replay(pid, h, r, failed_checks, target_dir, scratch, extract=True):
     os.makedirs(os.path.join(VERIF, "replays"), exist_ok=True)
     path = os.path.join(VERIF, "replays", "%s-%s-%s.json" % (pid, h.name, r["fs"]))
     rep = {
@@ -40,7 +40,12 @@ def make_replay(pid, h, r, failed_checks, target_dir, scratch):
     }
     found = False
     try:
-        rr = kanirun.run_harness(target_dir, r["fs"], h.fq, max(h.timeout, 120) * 2,
+        if not extract or os.environ.get("VERIF_NO_REPLAY"):
+            raise RuntimeError("counterexample extraction skipped (budget)")
+        # own copy of the built target dir: several extractions run in parallel
+        tdir = os.path.join(scratch, "replay-%s-%s" % (h.name, r["fs"]))
+        subprocess.run(["cp", "-a", target_dir, tdir], check=False)
+        rr = kanirun.run_harness(tdir, r["fs"], h.fq, min(max(h.timeout, 120) * 2, 900),
                                  extra_args=["-Z", "concrete-playback", "--concrete-playback=print"])
         src, vals = extract_playback(rr["raw"])
         if src:
